@@ -4,7 +4,51 @@ vc   : qualified names of the real functions whose contracts (contracts/*.py) ar
 sym  : symrun suites (real code on symbolic parameters, identities discharged by z3)
 rtc  : bounded run-time-contract driver (stand-in; never counted as proved)"""
 
+CORE_VC = ['cat.Arrow.__init__', 'cat.Id.__init__', 'cat.Arrow.then', 'cat.Arrow.__getitem__',
+           'monoidal.Layer.__init__', 'monoidal.Diagram.__init__', 'monoidal.Id.__init__']
+
 PROPS = {
+    'C01': dict(
+        title='Every diagram the library hands back is well-typed',
+        level='proof',
+        vc=CORE_VC + ['monoidal.Diagram.__init__[scan]', 'monoidal.Diagram.then', 'monoidal.Diagram.tensor',
+                      'monoidal.Diagram.__getitem__', 'rewriting.interchange', 'lemma:canary:then.len'],
+        sym=[], rtc='C01',
+        level_text='Proof of the representation invariant wf (boxes/offsets scan from dom to cod, each box finds its '
+                   'domain at its offset, the layer view agrees) for the constructor scan (establishes wf or raises, '
+                   'including the offset range that python slice clamping would hide), the fast-path constructor, '
+                   'Id, then, tensor, slicing/dagger/indexing and adjacent interchange: the real bodies are re-read '
+                   'from /repo on every run, verified against functional contracts, and wf(result) is discharged for '
+                   'all well-formed inputs of any length and width. Producers not yet under a discharged contract '
+                   '(rewrite traces, normal forms, foliation, flatten, swaps, permutations, cups/caps, transposes, '
+                   'functor images, rigid class) are covered by the bounded stand-in only and not counted as proved.',
+        level_note='Trusted: pyvc + solvers; Upgrade contract (class-preserving upgrade is the identity on the modelled '
+                   'fields; subclasses verified by the bounded driver); Box.dagger contract (swaps dom/cod, involutive) '
+                   'assumed at call sites; L-ind, L-ext. Bounded part: all diagrams <= 3 (thorough 4) boxes over 8 boxes.',
+        technique='VC generation from the real AST + z3/cvc5; loop invariants (closed-form and relational); bounded '
+                  'run-time contracts for the remaining producers'),
+    'C02': dict(
+        title='Diagrams obey the strict dagger-monoidal and sum laws as equalities',
+        level='proof',
+        vc=['monoidal.Diagram.then', 'monoidal.Diagram.tensor', 'monoidal.Diagram.__getitem__', 'cat.Arrow.then',
+            'cat.Arrow.__getitem__', 'monoidal.Id.__init__',
+            'lemma:then.assoc', 'lemma:then.unit', 'lemma:tensor.assoc', 'lemma:tensor.unit', 'lemma:tensor.whisker',
+            'lemma:tensor.id', 'lemma:slice.recompose', 'lemma:dagger.involutive', 'lemma:dagger.id',
+            'lemma:dagger.contravariant', 'lemma:dagger.tensor', 'lemma:canary:tensor.commutes',
+            'lemma:canary:then.len'],
+        sym=[], rtc='C02',
+        level_text='Proof: associativity and unit laws of then and tensor, tensor = whiskered composite, dagger '
+                   'involutive / identity-on-objects / contravariant, slice recomposition at every integer k, as '
+                   'record equalities (dom, cod, boxes, offsets and layers) between the values specified by the '
+                   'functional contracts that the real then / tensor / __getitem__ bodies are verified against on '
+                   'every run; for all diagrams of any length. Sum laws and the semantic subclasses are covered by '
+                   'the bounded stand-in only.',
+        level_note='Trusted: pyvc + solvers; Box.dagger contract (involutive, swaps dom/cod) assumed for generator '
+                   'boxes and checked per class by the bounded driver; L-ext. Known findings F2 (order of terms when '
+                   'two multi-term sums are composed) and F3 (Bubble.dagger TypeError) are listed in '
+                   'known_findings.json.',
+        technique='lemmas over machine-checked functional contracts of the real code (z3/cvc5); bounded run-time '
+                  'contracts for sums and subclasses'),
     'C05': dict(
         title='Interchange moves exactly one box past a disconnected neighbour',
         level='proof',
@@ -27,9 +71,10 @@ PROPS = {
 
 NOT_APPLICABLE = {}
 SOURCE_COMMITS = []
+FIX_COMMITS = ['16b45ce fix: refuse out-of-range offsets in the type scan of monoidal.Diagram.__init__']
 
 
 def claimed():
     return sorted(PROPS)
 
-CONTRACT_MODULES = ['core', 'rewriting']
+CONTRACT_MODULES = ['core', 'rewriting', 'lemmas']
